@@ -276,7 +276,25 @@ def ev1(case, rec, ell, EOBJ):
     rec.sample({'case': dict(case, brgs=case['brgs'][:2])})
 
 
-SUBCHECKS = [Sub('grid_geodesic', gen, ev, chunk=1, floor=500, guard=True, envs=8), Sub('ellipsoids', gen_ell, ev, chunk=1, floor=300, guard=True), Sub('both_hemispheres', gen_both, ev_both, chunk=1, floor=100, guard=True, envs=4)]
+# --- two threads computing DIFFERENT grid lines (zones, hemispheres, ellipsoids) at the same time ----------
+from gpmc import threads as _thr
+import numpy as _tnp
+import geodepy.constants as _tgc
+import geodepy.convert as _tgv
+import geodepy.geodesy as _tgg
+import geodepy.angles as _tga
+T_CALLS = {
+    'inv_55_54': lambda: (lambda: _tgg.vincinv_utm(55, 273741.2966, 5796489.7769, 54, 758173.7973, 5828674.3402)),
+    'inv_north_intl': lambda: (lambda: _tgg.vincinv_utm(31, 500000.0, 5000000.0, 31, 560000.0, 5060000.0, 'north', _tgc.intl24)),
+    'dir_55': lambda: (lambda: _tgg.vincdir_utm(55, 273741.2966, 5796489.7769, 305.17017, 54992.279)),
+    'dir_north_ans': lambda: (lambda: _tgg.vincdir_utm(2, 700000.0, 3000000.0, 120.0, 80000.0, 'north', _tgc.ans)),
+    'lsf_cross': lambda: (lambda: _tgg.line_sf(55, 273741.2966, 5796489.7769, 54, 758173.7973, 5828674.3402, 'south', _tgc.intl24)),
+}
+_tg, _te = _thr.make(T_CALLS, ['geodepy/geodesy.py'], 'geodesy:utm:threads', quick=['inv_55_54', 'inv_north_intl', 'dir_north_ans', 'lsf_cross'],
+                     triple=('inv_55_54', 'dir_north_ans', 'lsf_cross'), files_thorough=['geodepy/convert.py'])
+
+
+SUBCHECKS = [Sub('grid_geodesic', gen, ev, chunk=1, floor=500, guard=True, envs=8), Sub('ellipsoids', gen_ell, ev, chunk=1, floor=300, guard=True), Sub('both_hemispheres', gen_both, ev_both, chunk=1, floor=100, guard=True, envs=4), Sub('threads', _tg, _te, chunk=1, floor=3, poison=False)]
 
 
 def bounds(tier, seed):
